@@ -41,7 +41,7 @@ def gen(tier, seed):
             specs.append(("placement", 0, src, [], [("breaklist",)] + cmds + [("breaklist",), ("exit",)]))
     # run-time add/remove by absolute address, label +- offset, ^offset; loops revisiting the breakpoint
     loops = [dbggen.p_countdown, dbggen.p_selfloop, dbggen.p_call_rets, dbggen.p_nested_jsr, dbggen.p_breaks]
-    n = 800 if tier == "quick" else 20000
+    n = 800 if tier == "quick" else 60000
     for i in range(n):
         p = loops[i % len(loops)]
         src, feat = p(rnd)
